@@ -288,7 +288,11 @@ def main():
         print(f"VIOLATION property={pid} replay={rp}   ({key})")
     bad = [r for r in results if r["status"] in ("inconclusive", "error")]
     wall = time.time() - t0
-    write_evidence(pid, tier, seed, results, wall, nviol=len(violations), mir_hash=hsh, known=[k for k, _ in known_hits])
+    if a.only:
+        # a partial (development / seed-trial) run must not replace the evidence of the registered command
+        print(f"[{pid}] partial run (--only {a.only}): evidence/{pid}.json left untouched")
+    else:
+        write_evidence(pid, tier, seed, results, wall, nviol=len(violations), mir_hash=hsh, known=[k for k, _ in known_hits])
     if not a.keep:
         shutil.rmtree(workdir, ignore_errors=True)
     if violations:
